@@ -200,7 +200,27 @@ let oscmulti toks =
     end) steps;
   Buffer.contents b
 
+(* oscproxy <secret> <salt> <idctx> <cid> <sid> <proxy-uri bytes> <msgspec> <cseq>
+   <msgspec> = the request after the Proxy-Uri has been split as RFC 7252 6.4 / RFC 8613 4.1.3.3
+   prescribe (computed by the generator from the URI's components, not by libcoap) *)
+let oscproxy toks =
+  match toks with
+  | secret :: salt :: idctx :: cid :: sid :: _uri :: tl ->
+      let cc = ctx_of secret salt idctx cid sid in
+      let sc = ctx_of secret salt idctx sid cid in
+      let m, tl = msg_of tl in
+      (match tl with
+       | [cseq] ->
+           (match osc_protect_req cc m (zi cseq) with
+            | None -> "p1=NONE"
+            | Some o ->
+                let dg = serialize UDP o in
+                Printf.sprintf "split=[%s] p1=%s d1=%s" (dump_msg m) (fullhex dg) (receive sc None dg))
+       | _ -> failwith "oscproxy tail")
+  | _ -> failwith "oscproxy args"
+
 let () =
+  register "oscproxy" oscproxy;
   register "oscmulti" oscmulti;
   register "oscseq" oscseq;
   register "oscderive" oscderive; register "oscx" oscx; register "oscun" oscun
